@@ -14,7 +14,8 @@ open HW.Wire
 
 def pidPool : List Pid :=
   [⟨"n1:4000", "a"⟩, ⟨"n1:4000", "b"⟩, ⟨"n2:4000", "a"⟩, ⟨"ab", "c"⟩, ⟨"a", "bc"⟩, ⟨"", "abc"⟩, ⟨"abc", ""⟩, ⟨"n1:4000", "a/b"⟩,
-   ⟨"n/a", "w/1"⟩, ⟨"n", "a/w/1"⟩]
+   ⟨"n/a", "w/1"⟩, ⟨"n", "a/w/1"⟩,
+   ⟨"n1:4000", "<an id that is not valid UTF-8>"⟩]
 
 def payloadType (p : Nat) : String :=
   match p with
